@@ -8,25 +8,44 @@ import vk  # noqa: E402
 RACE_BIN = os.path.join(vk.HARNESS, "bin", "c18race_race")
 
 
+def _stamp():
+    """What the race-probe binary was built from: REPO's commit + working-tree status + the probe's own sources."""
+    import hashlib
+    h = hashlib.sha1()
+    for cmd in (["git", "-C", vk.REPO, "rev-parse", "HEAD"], ["git", "-C", vk.REPO, "status", "--porcelain"],
+                ["git", "-C", vk.REPO, "diff"]):
+        rc, out, _ = vk.sh(cmd, timeout=60)
+        h.update(out.encode())
+    for f in (os.path.join(vk.HARNESS, "cmd", "c18race", "main.go"), os.path.join(vk.HARNESS, "internal", "schedx", "inst.go")):
+        h.update(open(f, "rb").read())
+    h.update(os.path.realpath(vk.REPO).encode())
+    return h.hexdigest()
+
+
 def build_race_probe(timeout=2400):
-    """go build -race of harness/cmd/c18race against REPO (several minutes when the cache is cold)."""
+    """go build -race of harness/cmd/c18race against REPO.  The go build cache makes this a relink when nothing
+    relevant changed; ~2 min when executor/catalog changed, several minutes when the cache is cold."""
     with vk.Lock(os.path.join(vk.HARNESS, ".lock")):
         cmd = ["go", "build", "-race", "-tags", "verif", "-o", RACE_BIN, "./cmd/c18race"]
         if os.path.realpath(vk.REPO) != "/repo":
             alt = os.path.join(vk.HARNESS, "alt.mod")
-            if os.path.exists(alt):
-                cmd = ["go", "build", "-race", "-modfile", alt, "-tags", "verif", "-o", RACE_BIN, "./cmd/c18race"]
+            if not os.path.exists(alt):
+                gm = os.path.join(vk.HARNESS, "go.mod")
+                open(alt, "w").write(open(gm).read().replace("=> /repo", "=> " + os.path.realpath(vk.REPO)))
+                import shutil
+                shutil.copyfile(os.path.join(vk.REPO, "go.sum"), os.path.join(vk.HARNESS, "alt.sum"))
+            cmd = ["go", "build", "-race", "-modfile", alt, "-tags", "verif", "-o", RACE_BIN, "./cmd/c18race"]
         rc, out, dt = vk.sh(cmd, cwd=vk.HARNESS, env=vk.goenv(), timeout=timeout)
+        if rc == 0:
+            open(RACE_BIN + ".stamp", "w").write(_stamp())
         return rc == 0, out
 
 
 def probe_fresh():
-    if not os.path.exists(RACE_BIN) or os.path.realpath(vk.REPO) != "/repo":
+    try:
+        return os.path.exists(RACE_BIN) and open(RACE_BIN + ".stamp").read() == _stamp()
+    except OSError:
         return False
-    t = os.path.getmtime(RACE_BIN)
-    srcs = [os.path.join(vk.REPO, "executor", f) for f in os.listdir(os.path.join(vk.REPO, "executor")) if f.endswith(".go")]
-    srcs += [os.path.join(vk.HARNESS, "cmd", "c18race", "main.go"), os.path.join(vk.HARNESS, "internal", "schedx", "inst.go")]
-    return all(os.path.getmtime(s) <= t for s in srcs if os.path.exists(s))
 
 
 ACCESSORS = {"setHaveWALWriter", "getHaveWALWriter", "setShutdownPending", "isShutdownPending"}
@@ -63,6 +82,91 @@ def flag_accesses_outside_accessors():
     return bad
 
 
+CAT_MAPS = r"(datafile|subDirs)"
+# functions that touch the maps of objects no other goroutine can reach yet
+CAT_EXEMPT = {
+    "load": "builds a fresh Directory tree inside NewDirectory, before the tree is published",
+    "NewDirectory": "constructor",
+}
+# reads that hold only an ancestor's lock; justified inside C18's quantifier (write requests and queries): the subDirs map
+# of a non-root directory is written only by RemoveTimeBucket (destroy), which is C17's subject, not C18's
+CAT_READ_GAPS = {
+    "ListTimeBucketKeyNames": "reads symbolDir.subDirs / timeframeDir.subDirs under the root's read lock only; those maps are "
+                              "written only by bucket destruction (C17)",
+}
+
+
+def catalog_lock_discipline():
+    """Source tie for C18_catalog_race_free (hypothesis `disciplined` + 'reads under a lock').
+    What is checked, textually, in every non-test, non-verif file of catalog/:
+      * a WRITE to a directory map - `X.datafile[..] =`, `X.subDirs[..] =`, `delete(X.datafile|subDirs, ..)`, or an
+        assignment of the whole field `X.datafile =` / `X.subDirs =` - occurs in a function after `X.Lock()` of the SAME
+        receiver variable X and before its non-deferred `X.Unlock()` (a `defer X.Unlock()` holds to the end of the function);
+      * any other mention of `X.datafile` / `X.subDirs` (a READ) occurs after `X.RLock()` or `X.Lock()` likewise;
+      * an unlock directly followed by `return` (early exit inside a branch) does not end the region for the lines after it;
+      * functions that document that their CALLER holds the lock - `addSubdir` and every function named `*Locked` - may
+        read and write the receiver's maps; every call `X.addSubdir(` / `X.<name>Locked(` must be under `X.Lock()`;
+      * level functions - a function literal or a named function with the signature `(d *Directory, _ interface{}) error` -
+        may READ d's maps: they are run by `recurse`, which is checked to take `d.RLock()` before calling `levelFunc(d`;
+      * exempt: CAT_EXEMPT (objects not yet shared) and CAT_READ_GAPS (reads under an ancestor's lock; reason given).
+    `directMap` is a *sync.Map and is not checked.  Returns the offending places."""
+    bad = []
+    d = os.path.join(vk.REPO, "catalog")
+    recurse_ok = False
+    for fn in sorted(os.listdir(d)):
+        if not fn.endswith(".go") or fn.endswith("_test.go") or fn.startswith("verif_"):
+            continue
+        lines = open(os.path.join(d, fn), errors="replace").read().split("\n")
+        cur, held, level_named, closure_indent = None, {}, False, None
+        for n, line in enumerate(lines, 1):
+            code = line.split("//")[0]
+            m = re.match(r"^func\s+(\([^)]*\)\s*)?(\w+)\s*\((.*)", line)
+            if m:
+                cur, held, closure_indent = m.group(2), {}, None
+                level_named = bool(re.match(r"\s*d \*Directory,\s*\w+ interface\{\}\)\s*error", m.group(3)))
+            if closure_indent is None and re.search(r"func\(d \*Directory,\s*\w+ interface\{\}\)\s*error\s*\{", code):
+                closure_indent = re.match(r"\s*", line).group(0)
+            elif closure_indent is not None and line.rstrip() == closure_indent + "}":
+                closure_indent = None
+            for mm in re.finditer(r"\b(\w+)\.(R?)Lock\(\)", code):
+                if "defer" not in code:
+                    held[mm.group(1)] = "R" if mm.group(2) else "W"
+            for mm in re.finditer(r"\b(\w+)\.R?Unlock\(\)", code):
+                if "defer" in code:
+                    continue
+                nxt = next((l.strip() for l in lines[n:] if l.strip()), "")
+                if not nxt.startswith("return"):
+                    held.pop(mm.group(1), None)
+            if cur == "recurse" and re.search(r"levelFunc\(d\b", code) and held.get("d") in ("R", "W"):
+                recurse_ok = True
+            if cur in CAT_EXEMPT:
+                continue
+            caller_holds = cur == "addSubdir" or (cur or "").endswith("Locked")
+            for mm in re.finditer(r"\b(\w+)\.(addSubdir|\w+Locked)\(", code):
+                if held.get(mm.group(1)) != "W" and not caller_holds and not line.startswith("func"):
+                    bad.append("%s:%d: %s called without %s.Lock(): %s" % (fn, n, mm.group(2), mm.group(1), line.strip()))
+            writes = set()
+            for mm in re.finditer(r"\b(\w+)\." + CAT_MAPS + r"(\[[^\]]*\])?\s*(,\s*\w+\s*)?=(?!=)", code):
+                writes.add(mm.start())
+                if held.get(mm.group(1)) != "W" and not caller_holds:
+                    bad.append("%s:%d: map write outside %s.Lock(): %s" % (fn, n, mm.group(1), line.strip()))
+            for mm in re.finditer(r"delete\(\s*(\w+)\." + CAT_MAPS, code):
+                writes.add(code.find(mm.group(1) + ".", mm.start()))
+                if held.get(mm.group(1)) != "W" and not caller_holds:
+                    bad.append("%s:%d: map delete outside %s.Lock(): %s" % (fn, n, mm.group(1), line.strip()))
+            for mm in re.finditer(r"\b(\w+)\." + CAT_MAPS + r"\b", code):
+                if mm.start() in writes or held.get(mm.group(1)) in ("R", "W") or caller_holds:
+                    continue
+                if mm.group(1) == "d" and (level_named or closure_indent is not None):
+                    continue
+                if cur in CAT_READ_GAPS and mm.group(1) != "d" and mm.group(2) == "subDirs":
+                    continue
+                bad.append("%s:%d: map read outside %s.RLock()/Lock(): %s" % (fn, n, mm.group(1), line.strip()))
+    if not recurse_ok:
+        bad.append("catalog.go: recurse does not hold d.RLock() when it calls levelFunc(d, ..)")
+    return bad
+
+
 def race_probe(ctx, rows, info, broken):
     outside = flag_accesses_outside_accessors()
     info.setdefault("extra_coverage", {})["flag_accesses_outside_accessors"] = outside
@@ -72,41 +176,49 @@ def race_probe(ctx, rows, info, broken):
     """Search only: run the -race build of the real SyncWAL/WriteCSM/Shutdown and look for reports whose
     stacks are both inside /repo.  A hit becomes an oracle failure of class unsynchronised-flush-flags, which
     is no longer a listed finding since the fix of F18: it is reported as a VIOLATION.  No binary / no hit -> a note."""
+    cat_bad = catalog_lock_discipline()
+    info["extra_coverage"]["catalog_map_accesses_outside_lock"] = cat_bad
+    if cat_bad:
+        broken.append(("translation", "C18_catalog_race_free: catalog map accessed outside the directory lock",
+                       "the hypothesis `disciplined` of Model/CatLock.v is not justified by the source: " + "; ".join(cat_bad[:6])))
     if info.get("replay"):
         return
-    want = ctx.tier == "thorough" or os.environ.get("VERIF_RACE") == "1"
+    # ---- search: the go race detector on the real code, every tier (built on demand; go build cache)
     if not probe_fresh():
-        if not want:
-            ctx.notes.append("race probe skipped: bin/c18race_race not built for this tree (./check --setup or --tier thorough builds it)")
-            return
         ok, out = build_race_probe()
         if not ok:
-            ctx.notes.append("race probe: go build -race failed: " + out[-400:])
+            broken.append(("correspondence", "race probe build (go build -race ./cmd/c18race)", out[-1500:]))
             return
-    rc, out, dt = vk.sh([RACE_BIN], cwd=vk.ROOT, env=vk.goenv(), timeout=120)
-    pairs = []
+    rc, out, dt = vk.sh([RACE_BIN], cwd=vk.ROOT, env=vk.goenv(), timeout=180)
+    root = os.path.realpath(vk.REPO)
+    pairs, blocks = [], []
     for blk in out.split("==================")[1:]:
         if "DATA RACE" not in blk:
             continue
-        fr = re.findall(r"(/[\w./-]+/executor/\w+\.go:\d+)", blk)
-        fr = [f for f in fr if "/harness/" not in f and "verif_" not in f]
+        fr = re.findall(re.escape(root) + r"/([\w./-]+\.go:\d+)", blk)
+        fr = [f for f in fr if "verif_" not in f and "_test.go" not in f]
         if len(fr) >= 2:
-            pairs.append((os.path.basename(fr[0]), os.path.basename(fr[-1])))
-    info.setdefault("extra_coverage", {})["race_probe_reports"] = sorted(set("%s <-> %s" % p for p in pairs))
+            pairs.append((fr[0], next((f for f in fr[1:] if f.split(":")[0] != "" and f != fr[0]), fr[-1])))
+            blocks.append("\n".join(l for l in blk.split("\n") if '"level"' not in l)[:2500])
+    info["extra_coverage"]["race_probe_reports"] = sorted(set("%s <-> %s" % p for p in pairs))
     if pairs:
-        rows.append({"holds": False, "class": "unsynchronised-flush-flags", "source": "race-probe:bin/c18race_race",
-                     "input": {"mode": "race-detector"}, "obs": {"reports": sorted(set(pairs))},
-                     "detail": "go race detector: " + "; ".join(sorted(set("%s <-> %s" % p for p in pairs))),
+        rows.append({"holds": False, "class": "data-race", "source": "race-probe:bin/c18race_race",
+                     "input": {"mode": "race-detector", "workload": "harness/cmd/c18race: SyncWAL + 4 writers + queries + Shutdown; "
+                               "year rollover of one bucket against 3 readers of the same bucket"},
+                     "obs": {"reports": sorted(set(pairs)), "first_report": blocks[0]},
+                     "detail": "go race detector on the real code: " + "; ".join(sorted(set("%s <-> %s" % p for p in pairs))),
                      "tags": ["mode:race-detector"], "key": "race-probe", "nontrivial": False})
+    elif "c18race: done" not in out:
+        broken.append(("correspondence", "race probe did not finish", out[-1500:]))
     else:
-        ctx.notes.append("race probe ran, no report with both stacks inside /repo/executor")
+        ctx.notes.append("race probe ran (%.0fs), no report with both stacks inside the repository" % dt)
 
 
 SPEC = {
     "id": "C18",
     "coq_props": ["Properties/C18.v", "Corr/C18.v"],
     "module": "MS.Properties.C18",
-    "theorems": ["C18_refuted", "C18_read_committed_refuted", "C18_race_free",
+    "theorems": ["C18_refuted", "C18_read_committed_refuted", "C18_race_free", "C18_catalog_race_free",
                  "C18_variable_no_continuation", "C18_fixed_read_committed"],
     "corr_require": "Require Import MS.Corr.C18.",
     "agrees": "C18.agrees",
@@ -116,7 +228,7 @@ SPEC = {
     "n_thorough": 4000,
     "shard": 70,
     "post": race_probe,
-    "engine": "coq+implrun (+ go race detector as search)",
+    "engine": "coq+implrun + go race detector probe (bin/c18race_race, every tier)",
     "technique": "Coq invariant proofs on an executable per-syscall interleaving LTS (all schedules, any number of slots/writes/readers) "
                  "+ trace validation of forced runs: the real WriteBufferToFileIndirect stopped between its data Write and its index "
                  "Write (interposed ReadWriteSeeker) with real queries in the window; happens-before argument on the flush-protocol LTS "
@@ -139,6 +251,11 @@ SPEC = {
         "add-only shim /repo/executor/verif_h.go (only VerifHSetHave/GetHave are used here); Go harness, Python driver lib/vk.py",
     ],
     "assumptions": [
+        "C18_catalog_race_free: a data race is 'two goroutines simultaneously at conflicting accesses of a directory's map' (operational "
+        "definition); its hypothesis - every map write under the directory's write lock, every read under a lock - is tied to "
+        "catalog/*.go textually on every run (checks/C18.py catalog_lock_discipline states the exact rules and exemptions); reads of "
+        "a child's subDirs under an ancestor's lock only (ListTimeBucketKeyNames) are exempt because inside C18's quantifier (writes "
+        "and queries, no bucket destruction) nobody writes those maps",
         "the reader's two stages are not separable from outside, so recorded schedules have RIdx immediately followed by RData; the "
         "window 'data write between a reader's index read and its data read' is covered by the theorems and the statistical runs only",
         "torn reads/writes inside one syscall, buffile's block cache for >= 100 fixed writes per TG, races in code not modelled, and "
@@ -150,7 +267,10 @@ SPEC = {
                   "writes and readers: fixed-length buckets are read-committed at row granularity (C18_fixed_read_committed, no guard); "
                   "variable-length buckets are read-committed whenever the writer does not overwrite in place "
                   "(C18_variable_no_continuation); and, for the code after the fix of F18, every schedule of the flush protocol is free "
-                  "of unordered conflicting accesses to haveWALWriter / *shutdownPending (C18_race_free). The read-committed clause of "
+                  "of unordered conflicting accesses to haveWALWriter / *shutdownPending (C18_race_free), and the catalog directory maps "
+                  "are race-free under the RWMutex discipline the source is checked to follow (C18_catalog_race_free). The go race "
+                  "detector runs on the real code in every tier (SyncWAL + writers + queries + Shutdown + a year rollover against "
+                  "readers of the same bucket); any report inside the repository is a VIOLATION. The read-committed clause of "
                   "the full statement is still refuted: a reader inside an in-place continuation write gets a decode error (compression "
                   "on) or an uncommitted record while missing a committed one (compression off) (C18_read_committed_refuted; "
                   "KNOWN-FINDING continuation-write-window, replayed on the real code by stopping the real writer between its two Writes).",
